@@ -46,6 +46,14 @@ class C05(DevProp):
                 r["steps"] = []
         return results, err
 
+    def perturb(self, case, res):
+        # falsify: a data byte with the top bit set
+        for st in res["steps"]:
+            for m in st["midi"]:
+                m[2] = 200
+                return res
+        return None
+
     def gen(self, rng, tier):
         cases = []
         ACT = c04.ACT
